@@ -31,6 +31,9 @@ MUTANTS = [
  ('find-next-ignores-max', 'trie', 'dfa.rs', '} else if current_grapheme.maximum() == grapheme.maximum() {', '} else if current_grapheme.maximum() >= grapheme.maximum() {', 'fail', 'find_next_state.'),
  ('add-new-state-edge-reversed', 'trie', 'dfa.rs', '.add_edge(current_state, next_state, edge_label.clone());', '.add_edge(next_state, current_state, edge_label.clone());', 'fail', 'add_new_state.'),
  ('insert-marks-start', 'trie', 'dfa.rs', 'self.final_state_indices.insert(current_state.index());\n    }', 'self.final_state_indices.insert(self.initial_state.index());\n    }', 'fail', 'insert.'),
+ ('pipeline-sort-before-lowercase', 'regexp', 'regexp.rs', '        if config.is_case_insensitive_matching {\n            Self::convert_for_case_insensitive_matching(test_cases);\n        }\n        Self::sort(test_cases);', '        Self::sort(test_cases);\n        if config.is_case_insensitive_matching {\n            Self::convert_for_case_insensitive_matching(test_cases);\n        }', 'fail', 'pipeline.input_prepared'),
+ ('pipeline-fallback-drops-cluster', 'regexp', 'regexp.rs', '                        exprs.push(literal);', '                        if exprs.len() < 3 { exprs.push(literal); }', 'fail', 'pipeline.'),
+ ('pipeline-ast-from-other-clusters', 'regexp', 'regexp.rs', 'let mut dfa = Dfa::from(&grapheme_clusters, true, config);', 'let mut dfa = Dfa::from(&grapheme_clusters[1..], true, config);', 'fail', ''),
  ('wasm-wrong-field', 'wasm', 'wasm.rs', 'self.builder.config.is_start_anchor_disabled = true;\n        self.clone()', 'self.builder.config.is_end_anchor_disabled = true;\n        self.clone()', 'fail', 'wasm.withoutStartAnchor'),
 ]
 def run(repo, only=None, units=None):
